@@ -49,7 +49,7 @@ def trace_cfg(muc="TRUE", isf="TRUE", diag="FALSE", inv=True):
     return s if inv else s.replace("INVARIANT TraceInv\n", "")
 
 
-EMBS_Q = ["f64", "f32", "i64", "i64big", "i32", "u8", "bool", "M8ns", "M8ns0", "m8ns", "M8s", "i8lo"]
+EMBS_Q = ["f64", "f32", "i64", "i64big", "u64big", "i32", "u8", "bool", "M8ns", "M8ns0", "m8ns", "M8s", "i8lo"]
 EMBS_T = EMBS_Q + ["i8", "u64", "m8s", "M8us", "m8ns0", "i16lo", "i32lo"]
 CHUNKABLE = {"f64", "f32", "i64", "i64big", "i32", "i8", "u8", "u64"}
 
